@@ -237,8 +237,9 @@ Definition JS (H : pst -> pst -> Prop) {A} (RA : A -> A -> Prop) (m1 m2 : M A) :
   forall s1 s2, NB s1 s2 -> SE s1 s2 -> H s1 s2 ->
     match m1 s1, m2 s2 with
     | (ROk a1, s1'), (ROk a2, s2') => RA a1 a2 /\ NB s1' s2' /\ SE s1' s2' /\ seg s1 s1' s2 s2'
+    | (RPanic v1, s1'), (RPanic v2, s2') => arel v1 v2 /\ NB s1' s2' /\ SE s1' s2' /\ seg s1 s1' s2 s2'   (* both panic, with related payloads *)
     | (RFuel, _), _ | (RMiss _, _), _ | _, (RFuel, _) | _, (RMiss _, _) => True   (* out of fuel / not modelled: no claim *)
-    | _, _ => False                                                                (* neither run panics *)
+    | _, _ => False                                                                (* one run panics, the other returns: impossible *)
     end.
 Notation J := (JS (fun _ _ => True)).
 
@@ -269,12 +270,12 @@ Lemma JS_bind H {A B} (RA : A -> A -> Prop) (RB : B -> B -> Prop) m1 m2 k1 k2 :
   JS H RA m1 m2 -> (forall a1 a2, RA a1 a2 -> J RB (k1 a1) (k2 a2)) -> JS H RB (bind m1 k1) (bind m2 k2).
 Proof.
   intros Hm Hk s1 s2 N S Hs. unfold bind. specialize (Hm s1 s2 N S Hs).
-  destruct (m1 s1) as [[a1|v1| |w1] s1'] eqn:E1; destruct (m2 s2) as [[a2|v2| |w2] s2'] eqn:E2; try (exact Logic.I || contradiction || (exfalso; assumption));
+  destruct (m1 s1) as [[a1|v1| |w1] s1'] eqn:E1; destruct (m2 s2) as [[a2|v2| |w2] s2'] eqn:E2; try (exact Logic.I || contradiction || (exfalso; assumption) || assumption);
     try (destruct (k1 a1 s1') as [[?|?| |?] ?]; exact Logic.I).
   destruct Hm as (Ra & N' & S' & G).
   specialize (Hk a1 a2 Ra s1' s2' N' S' Logic.I).
-  destruct (k1 a1 s1') as [[b1|?| |?] s1''], (k2 a2 s2') as [[b2|?| |?] s2'']; try (exact Logic.I || contradiction || (exfalso; assumption)).
-  destruct Hk as (Rb & N'' & S'' & G'). refine (conj Rb (conj N'' (conj S'' _))). eapply seg_trans; eassumption.
+  destruct (k1 a1 s1') as [[b1|?| |?] s1''], (k2 a2 s2') as [[b2|?| |?] s2'']; try (exact Logic.I || contradiction || (exfalso; assumption) || assumption).
+  all: (destruct Hk as (Rb & N'' & S'' & G'); refine (conj Rb (conj N'' (conj S'' _))); eapply seg_trans; eassumption).
 Qed.
 
 Lemma J_bind {A B} (RA : A -> A -> Prop) (RB : B -> B -> Prop) m1 m2 k1 k2 :
@@ -287,13 +288,13 @@ Lemma JS_bind_k P {A B} (RA : A -> A -> Prop) (RB : B -> B -> Prop) m1 m2 k1 k2 
   (forall a1 a2, RA a1 a2 -> JS (HS P) RB (k1 a1) (k2 a2)) -> JS (HS P) RB (bind m1 k1) (bind m2 k2).
 Proof.
   intros Hm Hko Hk s1 s2 N S Hs. unfold bind. specialize (Hm s1 s2 N S Hs). pose proof (Hko s1) as Eo.
-  destruct (m1 s1) as [[a1|v1| |w1] s1'] eqn:E1; destruct (m2 s2) as [[a2|v2| |w2] s2'] eqn:E2; try (exact Logic.I || contradiction || (exfalso; assumption));
+  destruct (m1 s1) as [[a1|v1| |w1] s1'] eqn:E1; destruct (m2 s2) as [[a2|v2| |w2] s2'] eqn:E2; try (exact Logic.I || contradiction || (exfalso; assumption) || assumption);
     try (destruct (k1 a1 s1') as [[?|?| |?] ?]; exact Logic.I).
   destruct Hm as (Ra & N' & S' & G). cbn [snd] in Eo.
   assert (HS P s1' s2') as Hs' by (unfold HS in *; rewrite Eo; exact Hs).
   specialize (Hk a1 a2 Ra s1' s2' N' S' Hs').
-  destruct (k1 a1 s1') as [[b1|?| |?] s1''], (k2 a2 s2') as [[b2|?| |?] s2'']; try (exact Logic.I || contradiction || (exfalso; assumption)).
-  destruct Hk as (Rb & N'' & S'' & G'). refine (conj Rb (conj N'' (conj S'' _))). eapply seg_trans; eassumption.
+  destruct (k1 a1 s1') as [[b1|?| |?] s1''], (k2 a2 s2') as [[b2|?| |?] s2'']; try (exact Logic.I || contradiction || (exfalso; assumption) || assumption).
+  all: (destruct Hk as (Rb & N'' & S'' & G'); refine (conj Rb (conj N'' (conj S'' _))); eapply seg_trans; eassumption).
 Qed.
 
 (* reading the printer state: the continuation may use that it IS the current state *)
@@ -310,7 +311,7 @@ Definition any {A} (_ _ : A) : Prop := True.
 Lemma J_any {A} (RA : A -> A -> Prop) m1 m2 : J RA m1 m2 -> J any m1 m2.
 Proof.
   intros Hj s1 s2 N S Hs. specialize (Hj s1 s2 N S Hs).
-  destruct (m1 s1) as [[a1|?| |?] s1'], (m2 s2) as [[a2|?| |?] s2']; try (exact Logic.I || contradiction || (exfalso; assumption)).
+  destruct (m1 s1) as [[a1|?| |?] s1'], (m2 s2) as [[a2|?| |?] s2']; try (exact Logic.I || contradiction || (exfalso; assumption) || assumption).
   destruct Hj as (_ & N' & S' & G). exact (conj Logic.I (conj N' (conj S' G))).
 Qed.
 
@@ -538,13 +539,13 @@ Lemma JS_bind_o (Hp : ovr -> Prop) {A B} (RA : A -> A -> Prop) (RB : B -> B -> P
   JS (fun s1 _ => Hp (povr s1)) RB (bind m1 k1) (bind m2 k2).
 Proof.
   intros Hm Hko Hk s1 s2 N S Hs. unfold bind. specialize (Hm s1 s2 N S Hs). pose proof (Hko s1) as Eo.
-  destruct (m1 s1) as [[a1|v1| |w1] s1'] eqn:E1; destruct (m2 s2) as [[a2|v2| |w2] s2'] eqn:E2; try (exact Logic.I || contradiction || (exfalso; assumption));
+  destruct (m1 s1) as [[a1|v1| |w1] s1'] eqn:E1; destruct (m2 s2) as [[a2|v2| |w2] s2'] eqn:E2; try (exact Logic.I || contradiction || (exfalso; assumption) || assumption);
     try (destruct (k1 a1 s1') as [[?|?| |?] ?]; exact Logic.I).
   destruct Hm as (Ra & N' & S' & G). cbn [snd] in Eo.
   assert (Hp (povr s1')) as Hs' by (rewrite Eo; exact Hs).
   specialize (Hk a1 a2 Ra s1' s2' N' S' Hs').
-  destruct (k1 a1 s1') as [[b1|?| |?] s1''], (k2 a2 s2') as [[b2|?| |?] s2'']; try (exact Logic.I || contradiction || (exfalso; assumption)).
-  destruct Hk as (Rb & N'' & S'' & G'). refine (conj Rb (conj N'' (conj S'' _))). eapply seg_trans; eassumption.
+  destruct (k1 a1 s1') as [[b1|?| |?] s1''], (k2 a2 s2') as [[b2|?| |?] s2'']; try (exact Logic.I || contradiction || (exfalso; assumption) || assumption).
+  all: (destruct Hk as (Rb & N'' & S'' & G'); refine (conj Rb (conj N'' (conj S'' _))); eapply seg_trans; eassumption).
 Qed.
 
 Definition NoO : pst -> pst -> Prop := fun s1 _ => (fun o => o <> OvrSafe) (povr s1).
@@ -617,7 +618,7 @@ Section Loop.
   Proof.
     intros Ha s1 s2 N S Hn.
     pose proof (Hrec (CPrintArg (nth n a1 VNil) verb) (CPrintArg (nth n a2 VNil) verb) (conj eq_refl (lrel_nth a1 a2 n Ha)) s1 s2 N S (NoO_HS _ _ _ Hn)) as R.
-    destruct (rec (CPrintArg (nth n a1 VNil) verb) s1) as [[u1|?| |?] x], (rec (CPrintArg (nth n a2 VNil) verb) s2) as [[u2|?| |?] y]; try (exact Logic.I || contradiction || (exfalso; assumption)).
+    destruct (rec (CPrintArg (nth n a1 VNil) verb) s1) as [[u1|?| |?] x], (rec (CPrintArg (nth n a2 VNil) verb) s2) as [[u2|?| |?] y]; try (exact Logic.I || contradiction || (exfalso; assumption) || assumption).
     destruct R as (_ & R). exact (conj Logic.I R).
   Qed.
 
@@ -681,6 +682,7 @@ Section Loop.
     apply JS_get_bind. intros x y s1 s2 N S (-> & -> & Hn). rewrite <- (nb_good _ _ N).
     assert (forall m1 m2 : M Z, JS NoO eq m1 m2 -> match m1 x, m2 y with
               | (ROk a1', s1'), (ROk a2', s2') => a1' = a2' /\ NB s1' s2' /\ SE s1' s2' /\ seg x s1' y s2'
+              | (RPanic v1', s1'), (RPanic v2', s2') => arel v1' v2' /\ NB s1' s2' /\ SE s1' s2' /\ seg x s1' y s2'
               | (RFuel, _), _ | (RMiss _, _), _ | _, (RFuel, _) | _, (RMiss _, _) => True | _, _ => False end) as Hap
       by (intros m1 m2 Hm; apply Hm; auto).
     destruct (verb =? 37).
@@ -738,7 +740,7 @@ Section Top.
         eapply JS_bind; [|intros; now apply J_ret].
         intros s1 s2 N S Hn.
         pose proof (Hrec (CPrintArg x 118) (CPrintArg y 118) (conj eq_refl Hxy) s1 s2 N S (NoO_HS _ _ _ Hn)) as R.
-        destruct (rec (CPrintArg x 118) s1) as [[u1|?| |?] p], (rec (CPrintArg y 118) s2) as [[u2|?| |?] q]; try (exact Logic.I || contradiction || (exfalso; assumption)).
+        destruct (rec (CPrintArg x 118) s1) as [[u1|?| |?] p], (rec (CPrintArg y 118) s2) as [[u2|?| |?] q]; try (exact Logic.I || contradiction || (exfalso; assumption) || assumption).
         destruct R as (_ & R). exact (conj Logic.I R).
     - destruct x; try (apply kovr_wstr);
         (apply kovr_bind; [apply kovr_w1 | intros _]; apply kovr_bind; [apply kovr_wbyte | intros _]; apply kovr_bind; [apply Hkrec | intros _ sx; reflexivity]).
@@ -775,7 +777,7 @@ Section Top.
     jba; [| apply Hkrec | intros _ _ _; now apply IH].
     intros s1 s2 N S Hn.
     pose proof (Hrec (CPrintArg x 118) (CPrintArg y 118) (conj eq_refl Hxy) s1 s2 N S (NoO_HS _ _ _ Hn)) as R.
-    destruct (rec (CPrintArg x 118) s1) as [[u1|?| |?] p], (rec (CPrintArg y 118) s2) as [[u2|?| |?] q]; try (exact Logic.I || contradiction || (exfalso; assumption)).
+    destruct (rec (CPrintArg x 118) s1) as [[u1|?| |?] p], (rec (CPrintArg y 118) s2) as [[u2|?| |?] q]; try (exact Logic.I || contradiction || (exfalso; assumption) || assumption).
     destruct R as (_ & R). exact (conj Logic.I R).
   Qed.
 
@@ -1044,16 +1046,16 @@ Section Rec.
   Proof.
     intros Hk Hb s1 s2 N S Ho. rewrite !bracket_safe_run. rewrite <- (nb_ovr _ _ N), Ho. cbn [ovr_eqb]. cbv zeta.
     specialize (Hb s1 s2 N S Logic.I). pose proof (Hk s1) as Ek.
-    destruct (b1 s1) as [[u1|?| |?] x], (b2 s2) as [[u2|?| |?] y]; try (exact Logic.I || contradiction || (exfalso; assumption)).
-    destruct Hb as (_ & Nx & Sx & Gx). cbn [snd] in Ek.
-    assert (forall s l o, pl (set_ovr (set_pl s l) o) = l) as Hp by (intros [] ? ?; reflexivity).
-    rewrite <- (nb_mode _ _ N).
-    refine (conj Logic.I (conj _ (conj _ _))).
-    - apply NB_set_pl_ovr; [exact Nx | now rewrite !lmode_setmode | intros X; discriminate].
-    - intros X. assert (forall s l o, povr (set_ovr (set_pl s l) o) = o) as Hq by (intros [] ? ?; reflexivity). rewrite Hq in X. discriminate.
-    - eapply seg_trans; [exact Gx|].
-      exists [OMode (lmode (pl s1))], [OMode (lmode (pl s1))]. rewrite !Hp, !rlog_lset. split; [reflexivity|]. split; [reflexivity|].
-      cbn [rev app]. rewrite lmode_setmode. apply ds_mode. constructor.
+    destruct (b1 s1) as [[u1|?| |?] x], (b2 s2) as [[u2|?| |?] y]; try (exact Logic.I || contradiction || (exfalso; assumption) || assumption).
+    all: destruct Hb as (Rx & Nx & Sx & Gx); cbn [snd] in Ek.
+    all: assert (forall s l o, pl (set_ovr (set_pl s l) o) = l) as Hp by (intros [] ? ?; reflexivity).
+    all: rewrite <- (nb_mode _ _ N).
+    all: refine (conj Rx (conj _ (conj _ _))).
+    1,4: apply NB_set_pl_ovr; [exact Nx | now rewrite !lmode_setmode | intros X; discriminate].
+    1,3: intros X; assert (forall s l o, povr (set_ovr (set_pl s l) o) = o) as Hq by (intros [] ? ?; reflexivity); rewrite Hq in X; discriminate.
+    all: eapply seg_trans; [exact Gx|].
+    all: exists [OMode (lmode (pl s1))], [OMode (lmode (pl s1))]; rewrite !Hp, !rlog_lset; split; [reflexivity|]; split; [reflexivity|].
+    all: cbn [rev app]; rewrite lmode_setmode; apply ds_mode; constructor.
   Qed.
 
   Lemma povr_cases s : povr s <> OvrSafe -> povr s = NoOvr \/ povr s = OvrUnsafe.
@@ -1134,19 +1136,82 @@ Section Rec.
   Qed.
 
   (* ---------- handleMethods on a value whose method returns a string ---------- *)
-  (* catchPanic is transparent: neither run panics *)
-  Lemma Jcatch_panic (H : pst -> pst -> Prop) a1 a2 verb method (b1 b2 : M unit) :
-    JS H any b1 b2 -> JS H any (catch_panic rec a1 verb method b1) (catch_panic rec a2 verb method b2).
+  (* catchPanic: when both runs panic (with related payloads) the report is printed on both sides *)
+  Lemma J_set_panicking b : J any (modify (fun s => set_panicking s b)) (modify (fun s => set_panicking s b)).
+  Proof. apply J_modify; [nbmod | intros []; reflexivity | intros []; reflexivity]. Qed.
+  Lemma J_set_pf x : J any (modify (fun s => set_pf s x)) (modify (fun s => set_pf s x)).
+  Proof. apply J_modify; [nbmod | intros []; reflexivity | intros []; reflexivity]. Qed.
+  Lemma J_set_flags x : J any (modify (fun s => set_flags s x)) (modify (fun s => set_flags s x)).
   Proof.
-    intros Hb s1 s2 N S Hs. specialize (Hb s1 s2 N S Hs). unfold catch_panic.
+    apply J_modify; [|intros []; reflexivity | intros []; reflexivity].
+    intros s1 s2 N S. split; [destruct N; destruct s1, s2; constructor; cbn in *; auto; congruence | unfold SE in *; destruct s1, s2; cbn in *; auto].
+  Qed.
+  Lemma kovr_modf h : (forall s, povr (h s) = povr s) -> kovr (modify h).
+  Proof. intros H s. apply H. Qed.
+
+  Definition panic_report (v : value) (verb : Z) (method : string) (oldFlags : flags) : M unit :=
+    modify (fun s => set_pf s (mkF noflags 0 0)) ;;;
+    wstr "%!" ;;; w1 (WR verb) ;;; wstr "(PANIC=" ;;; wstr method ;;; wstr " method: " ;;;
+    modify (fun s => set_panicking s true) ;;;
+    rec (CPrintArg v 118) ;;;
+    modify (fun s => set_panicking s false) ;;;
+    wbyte 41 ;;;
+    modify (fun s => set_flags s oldFlags).
+
+  Lemma Jpanic_report v1 v2 verb method fl0 : arel v1 v2 ->
+    JS (HS False) any (panic_report v1 verb method fl0) (panic_report v2 verb method fl0).
+  Proof.
+    intros Hv. unfold panic_report.
+    eapply (JS_bind_k False any any); [apply J_JS, J_set_pf | apply kovr_modf; intros []; reflexivity | intros _ _ _].
+    eapply (JS_bind_k False any any); [apply J_JS, J_wstr | apply kovr_wstr | intros _ _ _].
+    eapply (JS_bind_k False any any); [apply J_JS, J_w1 | apply kovr_w1 | intros _ _ _].
+    eapply (JS_bind_k False any any); [apply J_JS, J_wstr | apply kovr_wstr | intros _ _ _].
+    eapply (JS_bind_k False any any); [apply J_JS, J_wstr | apply kovr_wstr | intros _ _ _].
+    eapply (JS_bind_k False any any); [apply J_JS, J_wstr | apply kovr_wstr | intros _ _ _].
+    eapply (JS_bind_k False any any); [apply J_JS, J_set_panicking | apply kovr_modf; intros []; reflexivity | intros _ _ _].
+    eapply (JS_bind_k False eq any); [| apply Hkrec | intros _ _ _].
+    { eapply JS_weaken; [|apply (Hrec (CPrintArg v1 118) (CPrintArg v2 118)); split; [reflexivity | exact Hv]]. intros ? ? Hx Ho. destruct (Hx Ho). }
+    apply J_JS.
+    eapply (J_bind any any); [apply J_set_panicking | intros _ _ _].
+    eapply (J_bind any any); [apply J_wbyte | intros _ _ _]. apply J_set_flags.
+  Qed.
+
+  Lemma catch_panic_run a verb method (b : M unit) s :
+    catch_panic rec a verb method b s =
+    match b s with
+    | (RPanic v, s1) =>
+      if is_nil_ptr a then wstr "<nil>" s1
+      else if panicking s1 then (RPanic v, s1)
+      else panic_report v verb method (fl (pf s1)) s1
+    | other => other
+    end.
+  Proof. reflexivity. Qed.
+
+  Lemma Jcatch_panic a1 a2 verb method (b1 b2 : M unit) :
+    is_nil_ptr a1 = is_nil_ptr a2 -> kovr b1 ->
+    JS (HS False) any b1 b2 -> JS (HS False) any (catch_panic rec a1 verb method b1) (catch_panic rec a2 verb method b2).
+  Proof.
+    intros Hnp Hk Hb s1 s2 N S Hs. specialize (Hb s1 s2 N S Hs). rewrite !catch_panic_run. pose proof (Hk s1) as Ek.
     destruct (b1 s1) as [[u1|p1| |w1] x] eqn:E1, (b2 s2) as [[u2|p2| |w2] y] eqn:E2; try (exact Hb || contradiction || exact Logic.I).
+    - (* both panic *)
+      destruct Hb as (Rp & Nx & Sx & Gx). cbn [snd] in Ek.
+      assert (HS False x y) as Hx by (intros X; rewrite Ek in X; exact (Hs X)).
+      rewrite <- Hnp, <- (nb_pan _ _ Nx), <- (nb_pf _ _ Nx).
+      destruct (is_nil_ptr a1).
+      + pose proof (J_wstr "<nil>" x y Nx Sx Logic.I) as R.
+        destruct (wstr "<nil>" x) as [[?|?| |?] x'], (wstr "<nil>" y) as [[?|?| |?] y']; try (exact Logic.I || contradiction || (exfalso; assumption)).
+        all: destruct R as (R0 & N' & S' & G'); refine (conj R0 (conj N' (conj S' _))); eapply seg_trans; eassumption.
+      + destruct (panicking x); [exact (conj Rp (conj Nx (conj Sx Gx)))|].
+        pose proof (Jpanic_report p1 p2 verb method (fl (pf x)) Rp x y Nx Sx Hx) as R.
+        destruct (panic_report p1 verb method (fl (pf x)) x) as [[?|?| |?] x'], (panic_report p2 verb method (fl (pf x)) y) as [[?|?| |?] y']; try (exact Logic.I || contradiction || (exfalso; assumption)).
+        all: destruct R as (R0 & N' & S' & G'); refine (conj R0 (conj N' (conj S' _))); eapply seg_trans; eassumption.
     - (* left panics, right out of fuel: no claim *)
       destruct (is_nil_ptr a1); [destruct (wstr "<nil>" x) as [[?|?| |?] ?]; exact Logic.I|].
       destruct (panicking x); [exact Logic.I|].
-      match goal with |- match ?m x with _ => _ end => destruct (m x) as [[?|?| |?] ?]; exact Logic.I end.
+      destruct (panic_report p1 verb method (fl (pf x)) x) as [[?|?| |?] ?]; exact Logic.I.
     - destruct (is_nil_ptr a1); [destruct (wstr "<nil>" x) as [[?|?| |?] ?]; exact Logic.I|].
       destruct (panicking x); [exact Logic.I|].
-      match goal with |- match ?m x with _ => _ end => destruct (m x) as [[?|?| |?] ?]; exact Logic.I end.
+      destruct (panic_report p1 verb method (fl (pf x)) x) as [[?|?| |?] ?]; exact Logic.I.
   Qed.
 
   Lemma catch_panic_ext a verb method (b1 b2 : M unit) : (forall s, b1 s = b2 s) ->
@@ -1212,20 +1277,22 @@ Section Rec.
     destruct (iError i); [|apply Hstd]. destruct (hook env); [reflexivity | apply Hstd].
   Qed.
 
-  Lemma Juser_std a1 a2 i x1 x2 verb : (x1 = x2 \/ srel x1 x2) ->
-    JS (HS (x1 = x2)) eq (user_std a1 i x1 verb) (user_std a2 i x2 verb).
+  Lemma Juser_std a1 a2 i x1 x2 verb : is_nil_ptr a1 = is_nil_ptr a2 -> (x1 = x2 \/ srel x1 x2) ->
+    JS (HS False) eq (user_std a1 i x1 verb) (user_std a2 i x2 verb).
   Proof.
-    intros Hx. unfold user_std.
+    intros Hnp Hx. unfold user_std.
     eapply JS_bind_k; [apply J_JS, J_getf | apply kovr_getf | intros f ? <-].
     destruct (sharpV (fl f)).
     - destruct (iGoStringer i); [|apply J_JS; now apply J_ret].
-      eapply JS_bind; [|intros; now apply J_ret]. apply Jcatch_panic.
+      eapply JS_bind; [|intros; now apply J_ret]. apply Jcatch_panic; [exact Hnp | apply kovr_keeps, keeps_bracket, start_ok_unsafe|].
       eapply JS_weaken; [|apply (ubody_wr_rel (fun f0 => fmt_s f0 x1) (fun f0 => fmt_s f0 x2))];
-        [intros s1 s2 H Ho f0; now rewrite (H Ho) | intros f0; apply fmt_s_rel; destruct Hx as [-> | Hx]; [apply srel_refl | exact Hx]].
+        [intros s1 s2 H Ho; destruct (H Ho) | intros f0; apply fmt_s_rel; destruct Hx as [-> | Hx]; [apply srel_refl | exact Hx]].
     - destruct (isv verb "vsxXq"); [|apply J_JS; now apply J_ret].
-      destruct (iError i); [eapply JS_bind; [|intros; now apply J_ret]; apply Jcatch_panic; now apply JfmtString|].
+      assert (JS (HS False) any (fmtString rec env x1 verb) (fmtString rec env x2 verb)) as Hf
+        by (eapply JS_weaken; [|now apply JfmtString]; intros s1 s2 H Ho; destruct (H Ho)).
+      destruct (iError i); [eapply JS_bind; [|intros; now apply J_ret]; apply Jcatch_panic; [exact Hnp | apply kovr_keeps, keeps_fmtString, Hkeeps | exact Hf]|].
       destruct (iStringer i); [|apply J_JS; now apply J_ret].
-      eapply JS_bind; [|intros; now apply J_ret]. apply Jcatch_panic. now apply JfmtString.
+      eapply JS_bind; [|intros; now apply J_ret]. apply Jcatch_panic; [exact Hnp | apply kovr_keeps, keeps_fmtString, Hkeeps | exact Hf].
   Qed.
 
   (* handleMethods on a value whose Format / SafeFormat method runs a script *)
@@ -1264,11 +1331,11 @@ Section Rec.
     unfold bind, getf. cbn iota beta. destruct (sharpV (fl (pf s))); [reflexivity|]. destruct (isv verb "vsxXq"); reflexivity.
   Qed.
 
-  Lemma Jscript_call a1 a2 verb method sc1 sc2 : Forall2 actrel sc1 sc2 ->
+  Lemma Jscript_call a1 a2 verb method sc1 sc2 : is_nil_ptr a1 = is_nil_ptr a2 -> Forall2 actrel sc1 sc2 ->
     JS (HS False) eq (script_call a1 verb method sc1) (script_call a2 verb method sc2).
   Proof.
-    intros Hsc. unfold script_call. eapply JS_bind; [|intros; now apply J_ret].
-    apply Jcatch_panic. eapply JS_bind; [|intros; now apply J_ret].
+    intros Hnp Hsc. unfold script_call. eapply JS_bind; [|intros; now apply J_ret].
+    apply Jcatch_panic; [exact Hnp | apply kovr_bind; [apply Hkrec | intros; apply kovr_ret]|]. eapply JS_bind; [|intros; now apply J_ret].
     eapply JS_weaken; [|apply (Hrec (CActs a1 verb sc1) (CActs a2 verb sc2)); split; [reflexivity | exact Hsc]].
     intros ? ? Hx. exact Hx.
   Qed.
@@ -1314,9 +1381,10 @@ Section Rec.
     cbn in Hc. repeat (destruct Hc as [<- | Hc]; [cbn in *; discriminate|]). exact Hc.
   Qed.
 
-  Lemma Jsm_call a1 a2 x verb : isv verb "vsxXq" = true -> JS (HS False) eq (sm_call a1 x verb) (sm_call a2 x verb).
+  Lemma Jsm_call a1 a2 x verb : is_nil_ptr a1 = is_nil_ptr a2 -> isv verb "vsxXq" = true -> JS (HS False) eq (sm_call a1 x verb) (sm_call a2 x verb).
   Proof.
-    intros Hv. unfold sm_call. eapply JS_bind; [|intros; now apply J_ret]. apply Jcatch_panic.
+    intros Hnp Hv. unfold sm_call. eapply JS_bind; [|intros; now apply J_ret].
+    apply Jcatch_panic; [exact Hnp | apply kovr_keeps, keeps_bracket, start_ok_safe_ovr|].
     destruct (fmtString_ubody x verb Hv) as (g & Hg).
     intros s1 s2 N S Hs.
     rewrite (bracket_ext start_safe_ovr (fmtString rec env x verb) (ubody g) Hg s1), (bracket_ext start_safe_ovr (fmtString rec env x verb) (ubody g) Hg s2).
@@ -1347,7 +1415,7 @@ Section Rec.
           unfold via_hook. rewrite <- (nb_ovr _ _ N).
           destruct (negb (ovr_eqb (povr s1) OvrUnsafe) && iError i);
             [destruct (hook env) as [h|]; [apply Jscript_call; auto|]|];
-            (apply Juser_std; auto; intros Hos1; destruct (Hnos Hos1)).
+            (apply Juser_std; auto).
         * (* Format *)
           rewrite (handleMethods_fmt_run verb s1 _ _ _ _ E1 (nb_nw _ _ N)) by assumption.
           rewrite (handleMethods_fmt_run verb s2 _ _ _ _ E2 Hw2) by assumption.
@@ -1707,6 +1775,7 @@ Section Rec.
     forall s1 s2, NB s1 s2 -> H s1 s2 ->
       match m1 s1, m2 s2 with
       | (ROk a1, s1'), (ROk a2, s2') => RA a1 a2 /\ NB s1' s2' /\ SE s1' s2' /\ seg s1 s1' s2 s2'
+      | (RPanic v1, s1'), (RPanic v2, s2') => arel v1 v2 /\ NB s1' s2' /\ SE s1' s2' /\ seg s1 s1' s2 s2'
       | (RFuel, _), _ | (RMiss _, _), _ | _, (RFuel, _) | _, (RMiss _, _) => True
       | _, _ => False
       end.
@@ -1737,12 +1806,12 @@ Section Rec.
         destruct v1, v2; try congruence; exact Hl. }
     assert (SE a1 a2) as S'.
     { unfold SE, a1, a2. destruct s1, s2; cbn in *. intros Ho. destruct (Hs Ho) as [<- Lf].
-      split; [reflexivity|]. split; [destruct v1; try (exact Logic.I || contradiction || (exfalso; assumption)); exact Lf|]. intros _. split; [reflexivity | exact Logic.I]. }
+      split; [reflexivity|]. split; [destruct v1; first [exact Logic.I | exact Lf]|]. intros _. split; [reflexivity | exact Logic.I]. }
     assert (HS (v1 = v2 /\ lfs v1 = true) a1 a2) as Hs' by (unfold HS, a1 in *; destruct s1; exact Hs).
     pose proof (Jpa_rest v1 v2 verb Hl a1 a2 N' S' Hs') as R.
-    destruct (pa_rest v1 verb a1) as [[u1|?| |?] x], (pa_rest v2 verb a2) as [[u2|?| |?] y]; try (exact Logic.I || contradiction || (exfalso; assumption)).
-    destruct R as (_ & Nx & Sx & Gx). refine (conj Logic.I (conj Nx (conj Sx _))).
-    apply (seg_same_pl s1 a1 s2 a2); [unfold a1; destruct s1; reflexivity | unfold a2; destruct s2; reflexivity | exact Gx].
+    destruct (pa_rest v1 verb a1) as [[u1|?| |?] x], (pa_rest v2 verb a2) as [[u2|?| |?] y]; try (exact Logic.I || contradiction || (exfalso; assumption) || assumption).
+    all: destruct R as (Rx & Nx & Sx & Gx); refine (conj Rx (conj Nx (conj Sx _)));
+      apply (seg_same_pl s1 a1 s2 a2); [unfold a1; destruct s1; reflexivity | unfold a2; destruct s2; reflexivity | exact Gx].
   Qed.
 
   Lemma Jbracket_safe (b1 b2 : M unit) : kovr b1 ->
@@ -1765,19 +1834,18 @@ Section Rec.
       - split; [exact N|]. split; [|apply seg_refl].
         intros Hnu. destruct (povr s1); try discriminate; congruence. }
     specialize (Hb a1 a2 Na Logic.I). pose proof (Hk a1) as Ek.
-    destruct (b1 a1) as [[u1|?| |?] x], (b2 a2) as [[u2|?| |?] y]; try (exact Logic.I || contradiction || (exfalso; assumption)).
-    destruct Hb as (_ & Nx & Sx & Gx). cbn [snd] in Ek.
-    assert (forall s l o, pl (set_ovr (set_pl s l) o) = l) as Hp by (intros [] ? ?; reflexivity).
-    refine (conj Logic.I (conj _ (conj _ _))).
-    - apply NB_set_pl_ovr; [exact Nx | now rewrite !lmode_setmode |].
-      intros Ho. rewrite lmode_setmode. now apply N.
-    - unfold SE. assert (forall s l o, parg (set_ovr (set_pl s l) o) = parg s /\ pval (set_ovr (set_pl s l) o) = pval s /\ povr (set_ovr (set_pl s l) o) = o) as Hf by (intros [] ? ?; auto).
-      destruct (Hf x (lset (pl x) (OMode (lmode (pl s1)))) (povr s1)) as (-> & -> & ->).
-      destruct (Hf y (lset (pl y) (OMode (lmode (pl s1)))) (povr s1)) as (-> & -> & _).
-      intros Ho. apply Sx. rewrite Ek. apply Oa. rewrite Ho. discriminate.
-    - eapply seg_trans; [exact Ga|]. eapply seg_trans; [exact Gx|].
-      exists [OMode (lmode (pl s1))], [OMode (lmode (pl s1))]. rewrite !Hp, !rlog_lset. split; [reflexivity|]. split; [reflexivity|].
-      cbn [rev app]. rewrite lmode_setmode. apply ds_mode. constructor.
+    destruct (b1 a1) as [[u1|?| |?] x], (b2 a2) as [[u2|?| |?] y]; try (exact Logic.I || contradiction || (exfalso; assumption) || assumption).
+    all: destruct Hb as (Rx & Nx & Sx & Gx); cbn [snd] in Ek.
+    all: assert (forall s l o, pl (set_ovr (set_pl s l) o) = l) as Hp by (intros [] ? ?; reflexivity).
+    all: refine (conj Rx (conj _ (conj _ _))).
+    1,4: (apply NB_set_pl_ovr; [exact Nx | now rewrite !lmode_setmode |]; intros Ho; rewrite lmode_setmode; now apply N).
+    1,3: (unfold SE; assert (forall s l o, parg (set_ovr (set_pl s l) o) = parg s /\ pval (set_ovr (set_pl s l) o) = pval s /\ povr (set_ovr (set_pl s l) o) = o) as Hf by (intros [] ? ?; auto);
+      destruct (Hf x (lset (pl x) (OMode (lmode (pl s1)))) (povr s1)) as (-> & -> & ->);
+      destruct (Hf y (lset (pl y) (OMode (lmode (pl s1)))) (povr s1)) as (-> & -> & _);
+      intros Ho; apply Sx; rewrite Ek; apply Oa; rewrite Ho; discriminate).
+    all: (eapply seg_trans; [exact Ga|]; eapply seg_trans; [exact Gx|];
+      exists [OMode (lmode (pl s1))], [OMode (lmode (pl s1))]; rewrite !Hp, !rlog_lset; split; [reflexivity|]; split; [reflexivity|];
+      cbn [rev app]; rewrite lmode_setmode; apply ds_mode; constructor).
   Qed.
 
   (* the same around a body that reads the state first: the operand was recorded just before *)
@@ -1807,19 +1875,18 @@ Section Rec.
         + intros Hnu. destruct (povr s1); try discriminate; congruence.
         + intros _. exact Hu. }
     specialize (Hb a1 a2 Na Sa Logic.I). pose proof (Hk a1) as Ek.
-    destruct (b1 a1) as [[u1|?| |?] x], (b2 a2) as [[u2|?| |?] y]; try (exact Logic.I || contradiction || (exfalso; assumption)).
-    destruct Hb as (_ & Nx & Sx & Gx). cbn [snd] in Ek.
-    assert (forall s l o, pl (set_ovr (set_pl s l) o) = l) as Hp by (intros [] ? ?; reflexivity).
-    refine (conj Logic.I (conj _ (conj _ _))).
-    - apply NB_set_pl_ovr; [exact Nx | now rewrite !lmode_setmode |].
-      intros Ho. rewrite lmode_setmode. now apply N.
-    - unfold SE. assert (forall s l o, parg (set_ovr (set_pl s l) o) = parg s /\ pval (set_ovr (set_pl s l) o) = pval s /\ povr (set_ovr (set_pl s l) o) = o) as Hf by (intros [] ? ?; auto).
-      destruct (Hf x (lset (pl x) (OMode (lmode (pl s1)))) (povr s1)) as (-> & -> & ->).
-      destruct (Hf y (lset (pl y) (OMode (lmode (pl s1)))) (povr s1)) as (-> & -> & _).
-      intros Ho. apply Sx. rewrite Ek. apply Oa. rewrite Ho. discriminate.
-    - eapply seg_trans; [exact Ga|]. eapply seg_trans; [exact Gx|].
-      exists [OMode (lmode (pl s1))], [OMode (lmode (pl s1))]. rewrite !Hp, !rlog_lset. split; [reflexivity|]. split; [reflexivity|].
-      cbn [rev app]. rewrite lmode_setmode. apply ds_mode. constructor.
+    destruct (b1 a1) as [[u1|?| |?] x], (b2 a2) as [[u2|?| |?] y]; try (exact Logic.I || contradiction || (exfalso; assumption) || assumption).
+    all: destruct Hb as (Rx & Nx & Sx & Gx); cbn [snd] in Ek.
+    all: assert (forall s l o, pl (set_ovr (set_pl s l) o) = l) as Hp by (intros [] ? ?; reflexivity).
+    all: refine (conj Rx (conj _ (conj _ _))).
+    1,4: (apply NB_set_pl_ovr; [exact Nx | now rewrite !lmode_setmode |]; intros Ho; rewrite lmode_setmode; now apply N).
+    1,3: (unfold SE; assert (forall s l o, parg (set_ovr (set_pl s l) o) = parg s /\ pval (set_ovr (set_pl s l) o) = pval s /\ povr (set_ovr (set_pl s l) o) = o) as Hf by (intros [] ? ?; auto);
+      destruct (Hf x (lset (pl x) (OMode (lmode (pl s1)))) (povr s1)) as (-> & -> & ->);
+      destruct (Hf y (lset (pl y) (OMode (lmode (pl s1)))) (povr s1)) as (-> & -> & _);
+      intros Ho; apply Sx; rewrite Ek; apply Oa; rewrite Ho; discriminate).
+    all: (eapply seg_trans; [exact Ga|]; eapply seg_trans; [exact Gx|];
+      exists [OMode (lmode (pl s1))], [OMode (lmode (pl s1))]; rewrite !Hp, !rlog_lset; split; [reflexivity|]; split; [reflexivity|];
+      cbn [rev app]; rewrite lmode_setmode; apply ds_mode; constructor).
   Qed.
 
   (* a field update that records the operand, then code that reads the state *)
@@ -1831,9 +1898,9 @@ Section Rec.
     intros Hr Hf Hg Hm s1 s2 N Hs. rewrite !bindm.
     destruct (Hr s1 s2 N Hs) as (N' & S' & H1).
     pose proof (Hm (f s1) (g s2) N' S' H1) as R.
-    destruct (m1 (f s1)) as [[u1|?| |?] x], (m2 (g s2)) as [[u2|?| |?] y]; try (exact Logic.I || contradiction || (exfalso; assumption)).
-    destruct R as (_ & Nx & Sx & Gx). refine (conj Logic.I (conj Nx (conj Sx _))).
-    apply (seg_same_pl s1 (f s1) s2 (g s2)); [apply Hf | apply Hg | exact Gx].
+    destruct (m1 (f s1)) as [[u1|?| |?] x], (m2 (g s2)) as [[u2|?| |?] y]; try (exact Logic.I || contradiction || (exfalso; assumption) || assumption).
+    all: destruct R as (Rx & Nx & Sx & Gx); refine (conj Rx (conj Nx (conj Sx _)));
+      apply (seg_same_pl s1 (f s1) s2 (g s2)); [apply Hf | apply Hg | exact Gx].
   Qed.
 
   (* ---------- printValue at every depth ---------- *)
@@ -1944,9 +2011,9 @@ Section Rec.
     assert ((povr a1 = OvrSafe -> v1 = v2 /\ lfs v1 = true) /\ parg a1 = dyn_of v1 /\ parg a2 = dyn_of v2) as Hp.
     { unfold a1, a2, HS in *. destruct s1, s2; cbn in *. auto. }
     pose proof (Jafter_arg v1 v2 verb depth true Hv a1 a2 N' Hp) as R.
-    destruct (after_arg v1 verb depth true a1) as [[u1|?| |?] x], (after_arg v2 verb depth true a2) as [[u2|?| |?] y]; try (exact Logic.I || contradiction || (exfalso; assumption)).
-    destruct R as (_ & Nx & Sx & Gx). refine (conj Logic.I (conj Nx (conj Sx _))).
-    apply (seg_same_pl s1 a1 s2 a2); [unfold a1; destruct s1; reflexivity | unfold a2; destruct s2; reflexivity | exact Gx].
+    destruct (after_arg v1 verb depth true a1) as [[u1|?| |?] x], (after_arg v2 verb depth true a2) as [[u2|?| |?] y]; try (exact Logic.I || contradiction || (exfalso; assumption) || assumption).
+    all: destruct R as (Rx & Nx & Sx & Gx); refine (conj Rx (conj Nx (conj Sx _)));
+      apply (seg_same_pl s1 a1 s2 a2); [unfold a1; destruct s1; reflexivity | unfold a2; destruct s2; reflexivity | exact Gx].
   Qed.
 
   Lemma JprintValue v1 v2 verb depth ci : vrel v1 v2 ->
@@ -2039,16 +2106,16 @@ Section Rec.
     assert (HS False n1 n2) as Hn by (intros X; unfold n1, fresh_pp in X; cbn in X; congruence).
     specialize (R Hn).
     destruct (rec c1 n1) as [[u1|?| |?] x], (rec c2 n2) as [[u2|?| |?] y];
-      try (exact Logic.I || contradiction || (exfalso; assumption)).
-    destruct R as (_ & Nx & Sx & (d1 & d2 & L1 & L2 & D)).
-    refine (conj Logic.I (conj _ (conj _ _))).
-    - apply NB_set_pl; [|rewrite !lmode_setmode; reflexivity | intros X; exfalso; apply Hns; destruct s1; exact X].
-      apply NB_set_pl; [exact N | apply Nx | intros X; exfalso; apply Hns; exact X].
-    - intros X. destruct s1; cbn in *. congruence.
-    - exists (OMode (lmode (pl s1)) :: d1), (OMode (lmode (pl s1)) :: d2).
-      rewrite !pl_set_pl, !rlog_lset, L1, L2. unfold n1, n2, fresh_pp. cbn [pl].
-      split; [reflexivity|]. split; [reflexivity|]. cbn [rev]. rewrite lmode_setmode.
-      eapply dsim_app; [exact D|]. apply ds_mode. constructor.
+      try (exact Logic.I || contradiction || (exfalso; assumption) || assumption).
+    all: destruct R as (Rx & Nx & Sx & (d1 & d2 & L1 & L2 & D)).
+    all: refine (conj _ (conj _ (conj _ _))); [first [exact Logic.I | exact Rx] | | |].
+    1,4: (apply NB_set_pl; [|rewrite !lmode_setmode; reflexivity | intros X; exfalso; apply Hns; destruct s1; exact X];
+      apply NB_set_pl; [exact N | apply Nx | intros X; exfalso; apply Hns; exact X]).
+    1,3: (intros X; destruct s1; cbn in *; congruence).
+    all: (exists (OMode (lmode (pl s1)) :: d1), (OMode (lmode (pl s1)) :: d2);
+      rewrite !pl_set_pl, !rlog_lset, L1, L2; unfold n1, n2, fresh_pp; cbn [pl];
+      split; [reflexivity|]; split; [reflexivity|]; cbn [rev]; rewrite lmode_setmode;
+      eapply dsim_app; [exact D|]; apply ds_mode; constructor).
   Qed.
 
   Lemma Jrun_action self1 self2 verb a1 a2 : actrel a1 a2 ->
@@ -2118,18 +2185,17 @@ Section Rec.
         + intros X. congruence.
       - split; [exact N|]. split; [exact Hs|]. split; [apply seg_refl | auto]. }
     specialize (Hb a1 a2 Na Ha). pose proof (Hk a1) as Ek.
-    destruct (b1 a1) as [[u1|?| |?] x], (b2 a2) as [[u2|?| |?] y]; try (exact Logic.I || contradiction || (exfalso; assumption)).
-    destruct Hb as (_ & Nx & Sx & Gx). cbn [snd] in Ek.
-    refine (conj Logic.I (conj _ (conj _ _))).
-    - apply NB_set_pl_ovr; [exact Nx | now rewrite !lmode_setmode |].
-      intros Ho. rewrite lmode_setmode. now apply N.
-    - unfold SE. assert (forall s l o, parg (set_ovr (set_pl s l) o) = parg s /\ pval (set_ovr (set_pl s l) o) = pval s /\ povr (set_ovr (set_pl s l) o) = o) as Hf by (intros [] ? ?; auto).
-      destruct (Hf x (lset (pl x) (OMode (lmode (pl s1)))) (povr s1)) as (-> & -> & ->).
-      destruct (Hf y (lset (pl y) (OMode (lmode (pl s1)))) (povr s1)) as (-> & -> & _).
-      intros Ho. apply Sx. rewrite Ek. now apply Oa.
-    - eapply seg_trans; [exact Ga|]. eapply seg_trans; [exact Gx|].
-      exists [OMode (lmode (pl s1))], [OMode (lmode (pl s1))]. rewrite !Hp, !rlog_lset. split; [reflexivity|]. split; [reflexivity|].
-      cbn [rev app]. rewrite lmode_setmode. apply ds_mode. constructor.
+    destruct (b1 a1) as [[u1|?| |?] x], (b2 a2) as [[u2|?| |?] y]; try (exact Logic.I || contradiction || (exfalso; assumption) || assumption).
+    all: destruct Hb as (Rx & Nx & Sx & Gx); cbn [snd] in Ek.
+    all: refine (conj Rx (conj _ (conj _ _))).
+    1,4: (apply NB_set_pl_ovr; [exact Nx | now rewrite !lmode_setmode |]; intros Ho; rewrite lmode_setmode; now apply N).
+    1,3: (unfold SE; assert (forall s l o, parg (set_ovr (set_pl s l) o) = parg s /\ pval (set_ovr (set_pl s l) o) = pval s /\ povr (set_ovr (set_pl s l) o) = o) as Hf by (intros [] ? ?; auto);
+      destruct (Hf x (lset (pl x) (OMode (lmode (pl s1)))) (povr s1)) as (-> & -> & ->);
+      destruct (Hf y (lset (pl y) (OMode (lmode (pl s1)))) (povr s1)) as (-> & -> & _);
+      intros Ho; apply Sx; rewrite Ek; now apply Oa).
+    all: (eapply seg_trans; [exact Ga|]; eapply seg_trans; [exact Gx|];
+      exists [OMode (lmode (pl s1))], [OMode (lmode (pl s1))]; rewrite !Hp, !rlog_lset; split; [reflexivity|]; split; [reflexivity|];
+      cbn [rev app]; rewrite lmode_setmode; apply ds_mode; constructor).
   Qed.
 
   Lemma JprintArg_unsafe a b verb : vrel a b ->
